@@ -177,8 +177,29 @@ class _PositiveTests(ast.NodeTransformer):
         return node
 
 
+class _MergeIsinstance(ast.NodeTransformer):
+    """`isinstance(x, A) or isinstance(x, B)` (same x, nothing else in the disjunction) -> `isinstance(x, (A, B))`"""
+
+    def visit_BoolOp(self, node):
+        self.generic_visit(node)
+        if isinstance(node.op, ast.Or) and len(node.values) > 1 and all(
+            isinstance(v, ast.Call) and isinstance(v.func, ast.Name) and v.func.id == "isinstance" and len(v.args) == 2 and not v.keywords for v in node.values
+        ):
+            first = ast.dump(node.values[0].args[0])
+            if all(ast.dump(v.args[0]) == first for v in node.values):
+                kinds = []
+                for v in node.values:
+                    kinds += list(v.args[1].elts) if isinstance(v.args[1], ast.Tuple) else [v.args[1]]
+                new = ast.Call(func=node.values[0].func, args=[node.values[0].args[0], ast.Tuple(elts=kinds, ctx=ast.Load())], keywords=[])
+                ast.copy_location(new, node)
+                ast.copy_location(new.args[1], node)
+                return new
+        return node
+
+
 def canonicalise(tree: ast.Module) -> ast.Module:
     for _ in range(2):  # the passes enable each other (a folded loop exposes a return temp, a turned `if` an else-after-jump)
+        tree = _MergeIsinstance().visit(tree)
         tree = _PositiveTests().visit(tree)
         tree = _InlineReturnTemp().visit(tree)
         tree = _IfAssignToIfExp().visit(tree)
